@@ -1,6 +1,6 @@
 (* C13 property theorems: statements only, each closed by [exact]. *)
 From Boltons Require Import Lib.Prelude Spec.C13_Spec Model.C13_Model
-     Proofs.C13_Bind Proofs.C13_Shape Proofs.C13_Sig Proofs.C13_Main.
+     Check.C13_Check Proofs.C13_Bind Proofs.C13_Shape Proofs.C13_Sig Proofs.C13_Main Proofs.C13_Holds.
 
 (* wraps(f)(wrapper): the same signature (parameters, kinds, defaults on the same
    parameters, annotations, return annotation), __name__, __doc__, __module__,
@@ -107,6 +107,35 @@ Theorem C13_expect_pinned_refuted :
     end.
 Proof. exact pinned_expect_refuted. Qed.
 Print Assumptions C13_expect_pinned_refuted.
+
+(* THE MAIN REFINEMENT.  [holds] (Check.C13_Check) is the predicate the
+   correspondence run evaluates on the IMPLEMENTATION's observations: well-formed
+   signature of f; direct calls follow Spec.bind; the wrapped function's signature
+   is Spec.spec_wraps of f's; same __name__/__doc__/__module__/async, __wrapped__;
+   rejected calls are TypeErrors and are exactly those the own signature rejects;
+   the wrapper is reached exactly on accepted calls; with plain wraps and a
+   forwarding wrapper the outcome equals the direct call's.  For every well-formed
+   function, all injected/expected lists and all calls with distinct keywords,
+   the MODEL's observation satisfies it - so on a run where [agree] holds (model =
+   implementation on that case) the implementation's behaviour is the proved one. *)
+Theorem C13_model_satisfies_spec : forall f inj exp fwd calls,
+  wf_func f -> Forall (fun nd => fst nd <> 0) exp ->
+  Forall (fun c => NoDup (keys (c_kw c))) calls ->
+  (fwd = true -> inj = [] /\ exp = []) ->
+  holds (model_case f inj exp fwd calls) = true.
+Proof. exact model_holds. Qed.
+Print Assumptions C13_model_satisfies_spec.
+
+Theorem C13_model_agrees_with_itself : forall f inj exp fwd calls,
+  wf_func f -> Forall (fun nd => fst nd <> 0) exp ->
+  agree (model_case f inj exp fwd calls) = true.
+Proof. exact model_agrees. Qed.
+Print Assumptions C13_model_agrees_with_itself.
+
+(* the signature of a well-formed function object is a well-formed signature *)
+Theorem C13_signature_wellformed : forall f, wf_func f -> wf_params (sg_params (func_sig f)) = true.
+Proof. exact func_sig_wf. Qed.
+Print Assumptions C13_signature_wellformed.
 
 (* ---- the hypotheses are inhabited by non-trivial states ------------------------------------------ *)
 Example C13_ex_wf_func : wf_func ex_f.
